@@ -1034,6 +1034,10 @@ class UnitBuilder:
             if kind == "file":
                 with open(os.path.join(ROOT, part[1])) as f:
                     txt = f.read()
+                if part[1].startswith("spec/") and self.d.get("modules", True) and "impl " not in strip_comments(txt) and "\nfn " not in txt:
+                    # pure specification files become modules: Verus verifies modules in parallel
+                    mname = "m_" + re.sub(r"[^a-z0-9]", "_", part[1][5:-3])
+                    txt = "pub mod %s {\nuse super::*;\n%s\n}\npub use %s::*;\n" % (mname, txt, mname)
                 ex.add_raw("// ---- %s\n%s" % (part[1], txt), label=part[1])
                 for m in re.finditer(r"(external_body|assume_specification|\badmit\s*\(|\bassume\s*\()", strip_comments(txt)):
                     pass
